@@ -261,13 +261,13 @@ def run(tier, seed):
     ctx = mp.get_context("fork")
     NS = {"x86": 16, "x64": 16, "tricore": 8, "armv7": 6}
     with ctx.Pool(core.NPROC, initializer=core._init_worker, maxtasksperchild=1) as pool:
-        names = pool.map(spec_modules_unit, modes, 1)
+        names = core._watched_map(pool, spec_modules_unit, modes, 1)
         jobs = []
         for (isa, mode), nm in zip(modes, names):
             ns = NS.get(isa, 2)
             for k in range(ns):
                 jobs.append((isa, mode, nm, tier, k, ns))
-        res = pool.map(mode_unit, jobs, 1)
+        res = core._watched_map(pool, mode_unit, jobs, 1)
     tot = {}
     per = {}
     for j, r in zip(jobs, res):
